@@ -54,6 +54,11 @@ def cases(tier, seed):
             out.append(('laws', m, d))
         for c in uni.CONSTANTS:
             out.append(('const', m, c))
+        # E2 layer: the same object was fitted (and queried) on something else before - the laws must hold all the same
+        if not (m[0] == 'kde' and m[3]):                 # weighted KDEs are tied to one sample length
+            for d in (('normal', 0.0, 1.0, 200), ('gamma2', -1e3, 1e3, 6)):
+                for pre in ('const0', 'const3', 'other'):
+                    out.append(('laws-after-' + pre, m, d))
     out.sort(key=lambda c: (c[1][0] != 'univariate',))   # slow ones first
     return out
 
@@ -72,6 +77,22 @@ def run_case(case):
     sig = f'C03:{fam}'
     tag = f'{_name(mspec)} on {dspec}'
     r.tr()
+    if kind.startswith('laws-after-'):
+        pre = kind.split('-')[-1]
+        x0 = {'const0': np.zeros(12), 'const3': np.full(12, 3.0),
+              'other': uni.dataset(('uniform', 40.0, 7.0, 25))}[pre]
+        try:
+            np.random.seed(99)
+            model.fit(x0.copy())
+            for q in ('cumulative_distribution', 'probability_density'):
+                getattr(model, q)(np.array([0.0, 1.0, 41.0]))
+            model.percent_point(np.array([0.25, 0.5]))
+        except Exception:
+            pass
+        r.hit('history-cases')
+        tag += f' (object previously fitted on {pre} data and queried)'
+        kind = 'laws'
+        np.random.seed(12345)
     try:
         model.fit(x.copy())
     except Exception as e:
@@ -328,3 +349,4 @@ def finish(agg, tier):
     engine.require(agg['hits'].get('kde-bisect', 0) >= 50, 'bisect solver under-explored')
     engine.require(ex.get('integral_intervals', 0) >= 5000, 'integral intervals under-explored')
     engine.require(agg['hits'].get('constant-cases', 0) >= 100, 'constant cases under-explored')
+    engine.require(agg['hits'].get('history-cases', 0) >= 60, 'history cases under-explored')
